@@ -15,8 +15,8 @@ type pkgSpec struct {
 type harnessSpec struct {
 	name          string
 	pkgs          []pkgSpec
-	testPkg       string            // package whose test binary is the harness
-	extraTestDirs []string          // other packages whose own tests must be removed (they receive harness helper files)
+	testPkg       string   // package whose test binary is the harness
+	extraTestDirs []string // other packages whose own tests must be removed (they receive harness helper files)
 	testFunc      string
 	files         map[string]string // /verif-relative source -> /repo-relative destination
 	race          bool
@@ -30,30 +30,17 @@ type propSpec struct {
 	probes    []string // probes that a healthy run is expected to hit
 }
 
-var harnesses = []*harnessSpec{
-	{
-		name:     "sched",
-		testPkg:  "server",
-		testFunc: "TestVerifSched",
-		pkgs: []pkgSpec{{
-			dir:      "server",
-			full:     []string{"sched.go"},
-			redirect: map[string]string{"discover.GetGPUInfo": "verifGetGPUInfo"},
-		}},
-		files: map[string]string{
-			"harness/server/zz_verif_common_test.go": "server/zz_verif_common_test.go",
-			"harness/server/zz_verif_sched_test.go":  "server/zz_verif_sched_test.go",
-		},
-	},
-}
+var harnesses []*harnessSpec
 
-var properties = map[string]propSpec{
-	"C01": {harness: "sched", level: "exploration", quickS: 40, thoroughS: 900,
-		probes: []string{"grant", "load_fail", "explicit_unload", "cancel_before_grant"}},
-	"C02": {harness: "sched", level: "exploration", quickS: 40, thoroughS: 900,
-		probes: []string{"grant", "queue_full", "drain_complete", "load_fail"}},
-	"C11": {harness: "sched", level: "exploration", quickS: 40, thoroughS: 900,
-		probes: []string{"grant", "reuse", "evict_idle_ok", "fit_checked"}},
+var properties = map[string]propSpec{}
+
+// register is called from the init functions of the per-harness config files.
+func register(h *harnessSpec, props map[string]propSpec) {
+	harnesses = append(harnesses, h)
+	for id, p := range props {
+		p.harness = h.name
+		properties[id] = p
+	}
 }
 
 func harnessByName(n string) *harnessSpec {
